@@ -42,7 +42,7 @@ def specEval (env : Nat → Fn α ρ) (agg : List (Ret α × Nat) → Hist α) (
     let finish (h : Hist α) : Hist α := if cur.depth = 0 then lowest h else h
     if cutNow newLim cur then .ok (finish (env fn).sentinel)
     else
-      let total := (srcs.map (·.total)).foldl (· * ·) 1
+      let total := srcTotal srcs
       let mkCtx (cc : Nat) : Ctx := ⟨some newLim, cur.depth + 1, cur.precNum * cc, cur.precDen * total⟩
       match (branches srcs).foldl (specBranch (specEval env agg lowest fuel) (env fn) mkCtx) (.ok []) with
       | .ok rs => .ok (finish (agg rs))
